@@ -15,7 +15,7 @@ init = [live_started, [], fid, h]; progs = per thread a list of
 """
 import re
 
-OPS = {"vis": {}, "line": {"spec_only": True}, "live_race": {}}
+OPS = {"vis": {}, "line": {"spec_only": True}, "live_race": {}, "progress_race": {"spec_only": True}}
 
 W = 40
 
@@ -220,7 +220,43 @@ def run_impl(init, progs, mode, vsched=(), seed=0, pswitch=0.1):
             "record": record, "rows": rows, "yields": sched.yields}
 
 
+def run_progress_race(vsched):
+    """D17 on Progress (no lock at all in Progress.process_renderables): thread 0 prints while
+    thread 1 adds a task and refreshes.  Frame rows are the task descriptions F1r0, F1r1."""
+    import os, sys
+    sys.path.insert(0, os.path.join(os.path.dirname(os.path.dirname(os.path.abspath(__file__)))))
+    from sched_console.sched import Scheduler, RLockProxy, HookList, SchedFile
+    from rich.console import Console
+    from rich.progress import Progress, TextColumn
+    sched = Scheduler(mode="vis", vsched=vsched)
+    f = SchedFile(sched)
+    console = Console(file=f, width=W, height=60, force_terminal=True, color_system=None, legacy_windows=False,
+                      record=True, _environ={}, highlight=False)
+    console._lock = RLockProxy(sched, "Console._lock")
+    console._record_buffer_lock = RLockProxy(sched, "Console._record_buffer_lock")
+    console._render_hooks = HookList(sched)
+    progress = Progress(TextColumn("{task.description}"), console=console, auto_refresh=False,
+                        redirect_stdout=False, redirect_stderr=False)
+    progress._lock = RLockProxy(sched, "Live._lock")     # logged with the code of the hook's lock
+    progress.add_task("F1r0")
+    progress.start()                                      # main thread: draws the 1-row frame
+    pre = [[9, parse_items(t)] for t in f.all]
+
+    def t0():
+        console.print("T0x7")
+
+    def t1():
+        progress.add_task("F1r1")
+        progress.refresh()
+    ok = sched.run([t0, t1])
+    writes = pre + [[t, parse_items(text)] for t, text in f.writes]
+    rows = [row_tree(s) for s in vt_rows("".join(f.all))]
+    return [writes, rows, 1 if ok and not sched.errors else 0]
+
+
 def impl(op, arg):
+    if op == "progress_race":
+        return run_progress_race(arg[0])
     if op in ("vis", "live_race"):
         rep, init, progs, vsched = arg
         r = run_impl(init, progs, "vis", vsched=vsched)
@@ -258,6 +294,10 @@ def spec_cases(op, arg, out):
             cases.append(("spec.record_order", [writes, record]))
         if op == "live_race":
             cases.append(("spec.screen_rows", [writes, rows]))
+    elif op == "progress_race":
+        writes, rows, fin = out
+        cases.append(("spec.no_deadlock", [fin]))
+        cases.append(("spec.screen_rows", [writes, rows]))
     elif op == "line":
         init, progs, seed, psw = arg
         trace, writes, caps, record, rows, dead = out
@@ -270,6 +310,11 @@ def spec_cases(op, arg, out):
             if init[0] and not has_startstop(progs):
                 cases.append(("spec.live_screen", [init, progs, trace, rows]))
     return cases
+
+
+def known_progress_race(op, arg):
+    """matcher for known_findings.json: the Progress instance of D17 = op progress_race"""
+    return op == "progress_race"
 
 
 def known_live_race(op, arg):
@@ -372,5 +417,7 @@ def generate(rng, tier):
 def describe(op, arg):
     names = {0: "print", 1: "log", 2: "with(", 3: ")", 4: "capture(", 5: ")", 6: "update", 7: "refresh", 8: "tick",
              9: "start", 10: "stop"}
+    if op == "progress_race":
+        return "progress_race: print || add_task refresh"
     progs = arg[2] if op != "line" else arg[1]
     return op + ": " + " || ".join(" ".join(names[o[0]] for o in p) for p in progs)
